@@ -1,5 +1,6 @@
 //! Heap meter: wraps the real system allocator (allocations really happen) and
-//! keeps thread-local live/peak counters. Each simulated run is confined to one
+//! keeps thread-local live/peak counters of what is allocated and freed while
+//! code under test runs (inside `env::guarded`, outside `heap::driver`). Each simulated run is confined to one
 //! thread, so the numbers are deterministic.
 
 use std::alloc::{GlobalAlloc, Layout, System};
@@ -60,8 +61,20 @@ thread_local! {
     static IN_SUT: Cell<bool> = const { Cell::new(false) };
 }
 
+/// Run harness bookkeeping (event records, error strings) without it being
+/// attributed to the code under test.
+pub fn driver<T, F: FnOnce() -> T>(f: F) -> T {
+    let prev = IN_SUT.with(|x| x.replace(false));
+    let r = f();
+    IN_SUT.with(|x| x.set(prev));
+    r
+}
+
 #[inline]
 fn add(n: usize) {
+    if !armed() {
+        return;
+    }
     let _ = LIVE.try_with(|l| {
         let v = l.get() + n as isize;
         l.set(v);
@@ -80,6 +93,9 @@ fn add(n: usize) {
 
 #[inline]
 fn sub(n: usize) {
+    if !armed() {
+        return;
+    }
     let _ = LIVE.try_with(|l| l.set(l.get() - n as isize));
 }
 
